@@ -10,6 +10,8 @@
 (*   "tseval" a trace set with rational coefficients / limits / jump evaluated by xy() /    *)
 (*            traceset2xy() at given positions and on its default grid                      *)
 (*   "grid"   the default grid of any trace set (FITS fixtures included)                    *)
+(*   "limits" xmin / xmax / default grid of a trace set fitted to positions, with the xmin /  *)
+(*            xmax keywords absent, zero (0, 0.0, -0.0), negative or positive                 *)
 (* (a record whose exact answer does not fit TLC's integers is answered "toobig" and the    *)
 (* harness sets it aside)                                                                   *)
 (* Law instances on real-valued data (M3): the harness measures the discrepancy between two *)
@@ -51,7 +53,7 @@ FitWhy(r) ==
        ELSE ""
 
 (* ---- trace-set evaluation ---- *)
-TsOf(r) == [basis |-> r.basis, nc |-> r.nc, given |-> TRUE, xmin |-> r.xmin, xmax |-> r.xmax, xpos |-> r.xp]
+TsOf(r) == [basis |-> r.basis, nc |-> r.nc, gmin |-> TRUE, gmax |-> TRUE, xmin |-> r.xmin, xmax |-> r.xmax, xpos |-> r.xp]
 JumpOf(r) == IF r.jump.on /\ ~r.ign THEN r.jump ELSE NoJump
 GridWhy(g, xmin, xmax, nTrace) ==
   IF g.rows # nTrace THEN "gridrows"
@@ -73,6 +75,16 @@ TsEvalWhy(r) ==
      ELSE IF gw # "" THEN gw
      ELSE IF \E k \in 1..Len(r.coeff) : ~AllClose(r.gvals[k], eg[k], r.tol) THEN "gridvalue"
      ELSE ""
+
+(* ---- limits: a trace set built from positions with / without xmin, xmax keywords ---- *)
+(* r.xpos: the positions (their extremes suffice), r.gmin/gmax/xmin/xmax: what the caller supplied,           *)
+(* r.omin/omax: the limits the trace set reports (exact rationals, r.oexact = they are), r.grid its default grid *)
+LimitsWhy(r) ==
+  LET t == [gmin |-> r.gmin, gmax |-> r.gmax, xmin |-> r.xmin, xmax |-> r.xmax, xpos |-> r.xpos] IN
+  IF ~r.oexact THEN "limits"
+  ELSE IF r.omin # TsXmin(t) THEN "xmin"
+  ELSE IF r.omax # TsXmax(t) THEN "xmax"
+  ELSE GridWhy(r.grid, TsXmin(t), TsXmax(t), r.nTrace)
 
 (* ---- law instances ---- *)
 (* tolerances in units of 10^-12 (relative to the data scale), by law and float width *)
@@ -103,6 +115,7 @@ Why(r) == CASE r.kind = "basis" -> BasisWhy(r)
             [] r.kind = "fit" -> FitWhy(r)
             [] r.kind = "tseval" -> TsEvalWhy(r)
             [] r.kind = "grid" -> GridWhy(r.grid, r.xmin, r.xmax, r.nTrace)
+            [] r.kind = "limits" -> LimitsWhy(r)
             [] r.kind = "law" -> LawWhy(r)
             [] OTHER -> "unknownkind"
 
